@@ -162,15 +162,15 @@ let () =
            let c = { in_param = false; cls_name = cls } in
            let toks = print_sig c s in
            out_tokens toks; bar ();
-           (match parse_sig env toks with None -> out "NONE" | Some s' -> out_sig s'); bar ();
+           (match parse_sig env [] toks with None -> out "NONE" | Some s' -> out_sig s'); bar ();
            let ns = norm_sig c s in
            out_sig ns; bar ();
            out_tokens (print_sig c ns); bar ();
-           out_bool (wf_sig env c s); out_bool (stable_sig c s)
+           out_bool (wf_sig env [] c s); out_bool (stable_sig c s)
          | "Y" ->
            let env = read_env () in
            let toks = read_tokens () in
-           (match parse_sig env toks with None -> out "NONE" | Some s' -> out_sig s')
+           (match parse_sig env [] toks with None -> out "NONE" | Some s' -> out_sig s')
          | w -> failwith ("bad command " ^ w))
       with e -> Buffer.clear buf; Buffer.add_string buf ("ERROR " ^ Printexc.to_string e));
       print_endline (Buffer.contents buf)
